@@ -23,7 +23,7 @@ logging.getLogger('Spectrum_mod').setLevel(logging.ERROR)
 
 REG = Registry(
     'C13',
-    rule=('synthetic genotype matrices: 1-3 populations, 2-12 diploids each, 1-40 SNPs, missing calls (./. with DP=0 / AD=0,0 when those '
+    rule=('synthetic genotype matrices: 1-3 populations, 2-12 diploids each, 1-40 SNPs, missing calls (./. or, in half the VCF cases of R1, a genotyped 0/0, with DP=0 / AD=0,0 when those '
           'fields exist), FILTER values, REF/ALT incl. lower case, multi-character and multi-allelic, AA present / absent / mismatching / '
           "'|'-suffixed / lower case, chromosome names containing '_' and '.', samples absent from the popinfo file, plain and .gz VCF; "
           'emitted as VCF+popinfo and as the SNP-table format; per-call read depths (AD/DP) varying from 1 to 30 and the calc_coverage option; '
@@ -31,7 +31,9 @@ REG = Registry(
           'missing call or an unusable line present. Distinct by hash of the case.'),
     assumptions=['oracle: direct counting - per usable SNP the product over populations of hypergeometric weights (math.comb), polarised '
                  'by the AA allele or folded; statistics computed SNP by SNP from the genotype matrix with formulas typed from the literature',
-                 'DP=0 / AD=0,0 are only generated together with a ./. genotype (consistent data)'])
+                 'a call with DP=0 / AD=0,0 is a missing call whatever genotype is written (the parser says so: "DP = 0 is the new method for '
+                 'checking a missing allele"); such calls are written ./. or 0/0, the latter only where the subsampling path is not involved '
+                 '(that path looks at DP only)'])
 
 _TMP = None
 
